@@ -97,6 +97,38 @@ CHECKS["C04"] = {
     "technique": "Coq proof (equivalence + greedy-matching lemma) + differential correspondence and pairwise content oracle",
 }
 
+CHECKS["C01"] = {
+    "text": "Proof (Coq), value level: every stored value kind (str, bool, int of any size, float under the float-oracle law, "
+            "URI, qualified name bound in the container, language-tagged literal) survives encode_json_representation -> "
+            "decode_json_representation -> normalisation on insertion unchanged; datetimes on samples; the decoder only builds "
+            "well-formed documents (for all trees). The container level (prefix block, identifier-keyed maps, arrays for "
+            "repeated identifiers, anonymous ids, bundles) is modelled and executed, its theorem stated but not yet proved "
+            "(partial). Tie: ExportJson/LoadJson in the correspondence programs (implementation tree = model tree; loaded "
+            "document = model decode); direct oracle: every document x 5 json.dump option sets, strict-content round trip.",
+    "design_ref": "DESIGN.md §5 C01, §10",
+    "technique": "Coq proofs per value kind + differential correspondence at JSON-tree level + strict round-trip oracle",
+}
+CHECKS["C10"] = {
+    "text": "Proof (Coq): the generated tables that drive the writers agree with the hand-written W3C tables (kinds, names, "
+            "formal arguments in order, attribute keys, record keys, time arguments, subtype names) — a renamed constant breaks "
+            "the build. The independent readers are Gallina definitions that share no code with the model of the library's "
+            "serializers; the extracted JSON reader is run on the implementation's real output for every document and two "
+            "option sets and must recover the strict content. End-to-end theorem stated, not yet proved; PROV-XML half: see "
+            "DESIGN §10 (partial).",
+    "design_ref": "DESIGN.md §5 C10, §10",
+    "technique": "Coq table-agreement proofs + extracted independent spec reader executed on the implementation's output",
+}
+CHECKS["C11"] = {
+    "text": "Proof (Coq): for every input tree the decoder accepts, the resulting document is well formed (no hypothesis on "
+            "the tree); wrapped values, membership expansion, record arrays and the multi-value refusal are computed Examples. "
+            "Stability and faithfulness are decided per run: specification-driven trees and single-point mutations of the 398 "
+            "ProvToolbox files are loaded by the implementation and by the extracted model (same document or same error "
+            "class), written and re-loaded (strict content equal), and compared with the independent specification reader "
+            "(never drops or invents). PROV-XML half and cross-format: see DESIGN §10 (partial).",
+    "design_ref": "DESIGN.md §5 C11, §10",
+    "technique": "Coq well-formedness proof of the decoder + differential correspondence on foreign trees + spec-reader oracle",
+}
+
 NOT_YET = {}
 
 
